@@ -77,7 +77,7 @@ def plans(seed, q):
         ("core", core, small(seed, KindsC={"default", "first"} if seed % 2 else {"even", "default"}, TextC={"var"}, FmtC={FMTS[2 + seed % 3]}), 3 if q else 4),
         # header/footer calls on a document that went through a package with Word-style part names
         ("foreign", ["AddHeader", "AddFooterWithPageNumber", "AddFormattedHeader", "Reopen", "ToBytes"],
-         small(seed, KindsC={"first", "default"}, TextC={"plain"}, ViaC={"word"}), 3 if q else 4),
+         small(seed, KindsC={"first", "default"}, TextC={"plain"}, ViaC={"word"}, FmtC={FMTS[seed % 2]}), 3 if q else 4),
     ]
     if not q:
         P += [
